@@ -85,11 +85,16 @@ def run_scheds(rep, binary, items, label, shards=12, env=None):
             else:
                 rep.infra_error("%s: schedule %d kills the harness without a library frame: %s" % (label, i, tail[-400:]))
     stats = collections.Counter()
+    reported = collections.Counter()
     for i, r in sorted(results.items()):
         if r.get("inconclusive"):
             stats["inconclusive"] += 1
             continue
+        if not r.get("ok") and (reported[r.get("key")] >= 2 or sum(reported.values()) >= 10):
+            stats["failed_not_rerun"] += 1      # the verdict is exit 1 already; same class as reported ones
+            continue
         if not r.get("ok"):
+            reported[r.get("key")] += 1
             rc, o, err = harness.run(binary, ["sched"], [byn[i]], timeout=120, env_extra=env)
             again = [x for x in o if x.get("n") == i and "begin" not in x]
             if again and not again[0].get("ok"):
@@ -198,27 +203,23 @@ def trace_selftests(rep, hists):
     """TLC must reject (a) a corrupted yielded value, (b) two yields swapped (order), (c) a call left blocked at
     quiescence although an unseen item is present (no removal in the history)."""
     def nexts(h):
-        ops = {e["id"]: e for e in h if e.get("ev") == "call"}
-        return [e for e in h if e.get("ev") == "ret" and ops[e["id"]]["op"] == "next" and e["res"].startswith(("v", "b"))]
+        ops = ops_of(h)
+        return [e for e in h if e.get("ev") == "ret" and ops[e["id"]] == "next" and e["res"].startswith(("v", "b"))]
     cands = sorted([h for h in hists if nexts(h)], key=len, reverse=True)
-    if not cands:
-        rep.self_test("trace self-tests found a history with a yield", False, "")
-        return
-    bad = copy.deepcopy(cands[0])
-    rid = nexts(bad)[0]["id"]
-    for e in bad:
-        if e.get("id") == rid and e.get("ev") == "ret":
-            e["res"] = "v999"
-        if e.get("id") == rid and e.get("ev") == "call":
-            e["hint"] = "v999"
-    acc, r, info = trace.validate("qiter", "IterTrace", "Trace.cfg", [bad])
-    rep.self_test("IterTrace rejects a yielded value that was never added", acc is False, str(info)[:200])
+    tests = []   # (name, corrupted history, event kind TLC must stop at or None)
+    if cands:
+        bad = copy.deepcopy(cands[0])
+        rid = nexts(bad)[0]["id"]
+        for e in bad:
+            if e.get("id") == rid and e.get("ev") in ("ret", "call"):
+                e["res" if e["ev"] == "ret" else "hint"] = "v999"
+        tests.append(("IterTrace rejects a yielded value that was never added", bad, "ret"))
     # (b) swap two successive yields of one iterator
     for h in cands:
-        ops = {e["id"]: e for e in h if e.get("ev") == "call"}
+        calls = {e["id"]: e for e in h if e.get("ev") == "call"}
         per = collections.defaultdict(list)
         for e in nexts(h):
-            per[ops[e["id"]]["arg"]].append(e["id"])
+            per[calls[e["id"]]["arg"]].append(e["id"])
         two = [v for v in per.values() if len(v) >= 2]
         if two:
             a, b = two[0][0], two[0][1]
@@ -226,19 +227,17 @@ def trace_selftests(rep, hists):
             res = {e["id"]: e["res"] for e in bad if e.get("ev") == "ret"}
             for e in bad:
                 if e.get("id") in (a, b) and e.get("ev") in ("ret", "call"):
-                    other = res[b] if e["id"] == a else res[a]
-                    e["res" if e["ev"] == "ret" else "hint"] = other
-            acc, r, info = trace.validate("qiter", "IterTrace", "Trace.cfg", [bad])
-            rep.self_test("IterTrace rejects two yields in the wrong order", acc is False, str(info)[:200])
+                    e["res" if e["ev"] == "ret" else "hint"] = res[b] if e["id"] == a else res[a]
+            tests.append(("IterTrace rejects two yields in the wrong order", bad, "ret"))
             break
     # (c) quiescence obligation: drop the return of an iterator's last yield (and everything that iterator did
     # afterwards) and claim the call blocked at the following quiescent points; no removal in the history
     for h in cands:
-        ops = {e["id"]: e for e in h if e.get("ev") == "call"}
-        if any(e.get("ev") == "ret" and ops[e["id"]]["op"] in ("popn", "popf") and e["res"] != "none" for e in h):
+        calls = {e["id"]: e for e in h if e.get("ev") == "call"}
+        if any(e.get("ev") == "ret" and calls[e["id"]]["op"] in ("popn", "popf") and e["res"] != "none" for e in h):
             continue    # removals: staying blocked would be allowed
         last = nexts(h)[-1]
-        name = ops[last["id"]]["arg"]
+        name = calls[last["id"]]["arg"]
         pos = next(i for i, e in enumerate(h) if e.get("ev") == "call" and e["id"] == last["id"])
         later = {e["id"] for e in h[pos + 1:] if e.get("ev") == "call" and e["op"] == "next" and e["arg"] == name}
         bad = []
@@ -250,11 +249,14 @@ def trace_selftests(rep, hists):
             if e.get("ev") == "quiescent":
                 e["blocked"] = sorted(set(e["blocked"]) | {last["id"]})
             bad.append(e)
-        acc, r, info = trace.validate("qiter", "IterTrace", "Trace.cfg", [bad])
-        rep.self_test("IterTrace rejects an iterator left blocked at quiescence with an unseen item present",
-                      acc is False and info.get("event", {}).get("ev") == "quiescent", str(info)[:200])
-        return
-    rep.self_test("trace self-tests found a history for the quiescence obligation", False, "")
+        tests.append(("IterTrace rejects an iterator left blocked at quiescence with an unseen item present", bad, "quiescent"))
+        break
+    if len(tests) < 3:
+        rep.self_test("trace self-tests found suitable histories", False, "%d of 3" % len(tests))
+    with cf.ThreadPoolExecutor(max_workers=3) as ex:
+        outs = list(ex.map(lambda t: trace.validate("qiter", "IterTrace", "Trace.cfg", [t[1]]), tests))
+    for (name, bad, stop), (acc, r, info) in zip(tests, outs):
+        rep.self_test(name, acc is False and info.get("event", {}).get("ev") == stop, str(info)[:200])
 
 
 def ops_of(h):
